@@ -50,11 +50,31 @@ func (d *D) node() datanode.DataNode {
 }
 
 type gen struct {
-	g *sg.G
-	n int
+	g    *sg.G
+	n    int
+	used map[string]bool
 }
 
-func (x *gen) id(p string) string { x.n++; return fmt.Sprintf("%s%d", p, x.n) }
+// vocabulary: node names as real models use them (some are also element names of other XML vocabularies, keywords of
+// YANG or JSON, or differ only in case / punctuation); each is used at most once per schema
+var vocabulary = []string{"area", "link", "base", "input", "meta", "param", "frame", "col", "img", "br", "hr", "name", "type", "value", "address", "port",
+	"interface", "config", "state", "enabled", "description", "id", "key", "data", "item", "entry", "list", "leaf", "container", "root", "top", "A",
+	"class", "for", "if", "x-y", "x.y", "_u", "Name", "null", "true", "false", "body", "head", "p", "i", "table", "tr", "td", "html", "isindex", "basefont", "Link", "AREA"}
+
+func (x *gen) id(p string) string {
+	x.n++
+	if x.used == nil {
+		x.used = map[string]bool{}
+	}
+	if x.g.Chance(1, 2, "vocab") {
+		v := vocabulary[x.g.Pick(len(vocabulary), "word")]
+		if !x.used[v] {
+			x.used[v] = true
+			return v
+		}
+	}
+	return fmt.Sprintf("%s%d", p, x.n)
+}
 
 var stringPool = []string{"plain", "", " lead", "trail ", "a<b", "a>b", "a&b", "say \"hi\"", "it's", "tab\there", "line1\nline2", "cr\rhere", "crlf\r\nx", "é", "日本語", "\U0001F600", "]]>", "<!--x-->", "&amp;", "a b", " nbsp", "x y", "{\"j\":1}", "[1,2]", "null", "true", "12", "1e3"}
 
@@ -400,16 +420,23 @@ func collect(mods []*sg.Mod) *orderInfo {
 }
 
 func canon(oi *orderInfo, ds []*D, depth int, b *strings.Builder, parentUser bool) {
+	canonE(oi, ds, depth, b, parentUser, false)
+}
+
+// canonE: areEntries says that ds are the entries of a list - their names are key values, not schema names
+func canonE(oi *orderInfo, ds []*D, depth int, b *strings.Builder, parentUser bool, areEntries bool) {
 	var parts []string
 	for _, d := range ds {
 		var sb strings.Builder
 		vals := append([]string(nil), d.Vals...)
-		if !oi.userOrdered[d.Name] {
+		isList := !areEntries && oi.lists[d.Name]
+		user := !areEntries && oi.userOrdered[d.Name]
+		if !user {
 			sort.Strings(vals)
 		}
 		fmt.Fprintf(&sb, "%s%s %q\n", strings.Repeat("  ", depth), d.Name, vals)
 		// entries of a user-ordered list keep their order; everything else is a multiset
-		canon(oi, d.Kids, depth+1, &sb, oi.userOrdered[d.Name] && oi.lists[d.Name])
+		canonE(oi, d.Kids, depth+1, &sb, user && isList, isList)
 		parts = append(parts, sb.String())
 	}
 	if !parentUser {
@@ -504,7 +531,7 @@ func conforms(mods []*sg.Mod, oi *orderInfo, known map[string]bool, ds []*D, isE
 				}
 			}
 		}
-		entries := oi.lists[d.Name]
+		entries := !isEntry && oi.lists[d.Name]
 		if msg := conforms(mods, oi, known, d.Kids, entries, d.Name); msg != "" {
 			return msg
 		}
